@@ -20,7 +20,7 @@ RULE = (
     "function's own params (discrete exact, continuous 1e-12 relative); each stochastic state is a grid label "
     "whose probability in the row selected by the dependencies IN SIGNATURE ORDER is > 0. Non-trivial pair: a "
     "deterministic next value differs from the current one or depends on a choice, or the selected stochastic "
-    "row has a zero entry; distinct_nontrivial = distinct cases with >=1 such pair."
+    "row has a zero entry. In about 1 case in 6 a continuous state <s>_dup is added whose transition is the SAME Python callable as next_<s>, registered a second time with its own parameter block. distinct_nontrivial = distinct cases with >=1 such pair."
 )
 ASSUMPTIONS = [
     "float64, CPU; NumPy DAG evaluator of vlib/refmodel.py trusted",
@@ -43,6 +43,9 @@ def cases(draw):
         "spec": spec.to_json(),
         "agents": draw(raw_agents(1, 8)),
         "seed": draw(st.integers(0, 2**31 - 1)),
+        # a generic law of motion (one Python callable) registered for two states with different
+        # parameter blocks
+        "shared_callable": draw(st.integers(0, 999)) >= 700,
     }
 
 
@@ -51,6 +54,14 @@ def strategy(tier):
 
 
 def check(case):
+    shared = False
+    if case.get("shared_callable"):
+        from ..ir import Spec, share_callable
+
+        sp2 = share_callable(Spec.from_json(case["spec"]))
+        if sp2 is not None:
+            case = {**case, "spec": sp2.to_json()}
+            shared = True
     spec, ref, skip = prepare(case)
     dg = case_digest(case)
     if skip:
@@ -62,7 +73,7 @@ def check(case):
     fns = simcheck.get_functions(spec, targets=("solve_and_simulate",))
     df = simcheck.simulate(fns, spec, init, case["seed"])
     msgs, cnt = simcheck.check_law_of_motion(spec, ref, df, init, n)
-    out = Outcome(digest=dg, classes=model_classes(spec, ref), info=cnt)
+    out = Outcome(digest=dg, classes=model_classes(spec, ref) + (["one_callable_for_two_transitions"] if shared else []), info=cnt)
     out.nontrivial = cnt["pairs_nontrivial"] > 0
     if msgs:
         out.status = "violation"
